@@ -4,13 +4,20 @@ import json, os
 HERE = os.path.dirname(os.path.abspath(__file__))
 BASE = "cd /repo && /venv/bin/python -m pytest -ra -q -p no:cacheprovider --timeout=900 --continue-on-collection-errors"
 
+SCHED_NOTE = "Trusted: TLC; the fake task below Engine.restart (exits injected by the harness), harness/world.py replacing threads/timers by one deterministic queue (no repository hook); schedules of the real code are sampled, the model is exhaustive for the listed shapes."
 CHECKS = {
+ "C01": dict(engine="Scheduler", technique="TLC model checking of spec/Scheduler.tla (LaunchSafe action property, all interleavings/scan orders); trace validation of recorded runs of the real Controller against SchedulerTrace.tla with LaunchSafe evaluated on logged real states",
+             text="The scheduler is specified as a state machine (one action per critical section of Controller/ComponentState); TLC checks the launch-safety action property exhaustively for small workflow shapes x fault sequences; every deterministic run of the real Controller (seeded schedules) is validated step by step against the specification by TLC, so a premature launch is either a rejected trace or a false action property on real states.",
+             note=SCHED_NOTE, ref="4/C01"),
+ "C02": dict(engine="Scheduler", technique="TLC exhaustive exploration of spec/Scheduler.tla: terminal states per case compared with the declarative rule, deadlock + fairness-based termination; real Controller runs trace-validated and their terminal states required to be reachable in the specification",
+             text="Confluence and termination are decided by exhaustive enumeration of interleavings per (shape, fault sequence) on the model; the binding runs the real Controller under seeded schedules, validates every run against the specification, detects runs that never reach quiescence and checks each real terminal state against the set TLC computed and against the documented rule.",
+             note=SCHED_NOTE, ref="4/C02"),
  "C20": dict(engine="Progress", technique="TLC model checking of spec/Progress.tla (weight normalisation + progress state machine); every TLC-emitted case/state replayed into FlowIRConcrete and the real StatusMonitor.CheckStatus and compared with the spec",
              text="TLC exhaustively checks the normalisation rule and the progress state machine for <=3 (thorough 4) stages over a truncation-sensitive weight grid; the binding executes every emitted weight vector through the real loader and every reachable progress state through the real StatusMonitor with the spec as oracle.",
              note="Trusted: TLC, the stub controller that imposes the model state on StatusMonitor (Controller.get_stage_status itself is real); weights with more than 4 decimals are outside the grid.",
              ref="4/C20"),
 }
-NOT_APPLICABLE = {p: 'check under construction in this round (specification planned in DESIGN.md section 4); not yet claimed' for p in ['C01', 'C02', 'C03', 'C04', 'C05', 'C06', 'C07', 'C08', 'C09', 'C10', 'C11', 'C12', 'C13', 'C14', 'C15', 'C16', 'C17', 'C18', 'C19']}
+NOT_APPLICABLE = {p: 'check under construction in this round (specification planned in DESIGN.md section 4); not yet claimed' for p in ['C%02d' % i for i in range(1, 21)] if p not in CHECKS}
 
 def main():
     m = {"version": 1,
